@@ -13,6 +13,28 @@ CFG = {
         "Swat4.C12.enqueue_one_batch",
         "Swat4.C12.no_leak",
         "Swat4.C12.pop_nonpositive",
+        "Swat4.C12.ghost_faithful",
+        "Swat4.C12.ghost_popped",
+        "Swat4.C12.batch_is_log",
+        "Swat4.C12.init_of_calls",
+        "Swat4.C12.ids_fresh",
+        "Swat4.C12.enqueue_uses_fresh",
+        "Swat4.C12.conservation",
+        "Swat4.C12.integrity",
+        "Swat4.C12.at_most_once",
+        "Swat4.C12.batch_size",
+        "Swat4.C12.not_early",
+        "Swat4.C12.not_late",
+        "Swat4.C12.no_leak_run",
+        "Swat4.C12.no_leak_finish",
+        "Swat4.C12.ghost_faithful_finish",
+        "Swat4.C12.conservation_final",
+        "Swat4.C12.timing_final",
+        "Swat4.C12.batch_sorted_seq",
+        "Swat4.C12.batch_sorted_conc",
+        "Swat4.C12.witness_init",
+        "Swat4.C12.witness_pops",
+        "Swat4.C12.batch_unsorted_witness",
     ],
     "shards": (4, 16),
     "nontrivial": _nontrivial,
@@ -30,12 +52,22 @@ CFG = {
     ],
     "trusted_base": COMMON_TRUSTED,
     "manifest": {
-        "text": "Lean theorems so far: never_queued (explicit ready >= expiry: no storage command is issued), enqueue_one_batch (payload and ordering entry are "
-                "written by one atomic batch under one fresh id), no_leak (every command of every queue call keeps the key sets of probes:items and "
-                "probes:queue equal — instance of the C10 invariant), pop_nonpositive. The interleaving-level statements (conservation, at-most-once, "
-                "timing, batch order under the side condition) are decided by the correspondence run and its oracle on all generated interleavings of two "
-                "consumers and a producer; the unordered-batch case is a recorded known finding (late-past-ready).",
-        "level_note": "Partial as a proof: conservation / at-most-once over all interleavings are not yet Lean theorems about QueueSys. Trusted: Lean kernel; the "
+        "text": "Lean theorems over ALL event lists (any number of producers and consumers, any interleaving of storage commands, ticks, deaths "
+                "before/after a command) from any initial state with a consistent store and an empty probe queue, stated on a ghost-augmented system "
+                "(QSys + log of accepted enqueues + log of popped entries) that provably projects onto the validated model (ghost_faithful, "
+                "ghost_faithful_finish, ghost_popped, batch_is_log): ids_fresh (k-th accepted enqueue gets id fresh0+k; stored ids < counter), "
+                "conservation (enqueued ids = queued ids + popped ids, disjoint, no duplicates), integrity (a pop record carries probe, expiry and "
+                "ready time of its enqueue), at_most_once, batch_size (<= n at every pc), not_early (monotone clock: ready <= clock at the pop "
+                "batch), not_late (returned => no expiry or expiry >= clock at the pop batch; otherwise counted), no_leak_run / no_leak_finish "
+                "(C10 invariant at every reachable state), conservation_final / timing_final (same in the state after the driver's completion "
+                "phase), never_queued, enqueue_one_batch, enqueue_uses_fresh, pop_nonpositive. Batch order: the unconditional statement is false "
+                "(batch_unsorted_witness: a checked 4-event schedule returning ready times [50, 10]); proved partials batch_sorted_seq (no enqueue "
+                "executes during the call) and batch_sorted_conc (every enqueue during the call has ready >= clock when it executes, monotone "
+                "clock). The correspondence run decides that the model is the code and evaluates the same predicates on the implementation's "
+                "outputs; the unordered-batch case is the recorded known finding (late-past-ready).",
+        "level_note": "Proved for the command-level model of enqueue/PopMany under arbitrary interleaving; batch order only under the stated side "
+                      "conditions (the full statement is refuted by a witness, known finding). Ghost logs live in a wrapper system proved to erase "
+                      "to the model; ties between equal scores are ordered by id in the model (by UUID text in Redis). Trusted: Lean kernel; the "
                       "command-level queue model validated by the differential run; the oracle in the driver.",
         "technique": "Lean 4 proof (atomic-batch lemmas, C10 invariant) + exhaustive-style interleaving correspondence with an independent conservation oracle",
         "design_ref": "DESIGN.md §5 C12",
